@@ -704,6 +704,13 @@ func runC13(c *Ctx) {
 				hi, okh := intConst(sl.High)
 				return okh && hi == 4 && sl.Low == nil
 			})
+			// ... and no line long enough to hold a slot name is left out: the facts at the append ask for exactly the seven
+			// characters that line[5:7] needs (a stricter length test drops the line `Slot 9a`)
+			if okElem {
+				bcLen := &boundsCtx{w: w, fn: pf, root: pf, facts: f}
+				need := bcLen.lenLB(line, call.Block())
+				c.Check(need <= 7, "R4.slots", "ListSlots|every line holding a slot name is taken", w.Pos(call.Pos()), "the length required of a line is 7", "a line is taken only if it has at least "+itoa(int(need))+" characters: a status line that ends right after the two-character slot name is dropped")
+			}
 			c.Check(okPrefix, "R4.slots", "ListSlots|only lines beginning with Slot", w.Pos(call.Pos()), "must-fact line[:4] == \"Slot\"", "a line that does not begin with 'Slot' can contribute a slot name")
 			// nothing else gates the append
 			extra := ""
